@@ -130,6 +130,12 @@ pub fn classify(msg: &str) -> &'static str {
 
 /// Runs `f`, mapping a panic to `panic <kind>`.
 pub fn run<F: FnOnce() -> String>(f: F) -> String {
+    // NTV_DRY: list the cases without calling the implementation (used by `check` to locate the case
+    // on which the implementation aborts the process: stack overflow, allocation failure, endless loop)
+    static DRY: std::sync::OnceLock<bool> = std::sync::OnceLock::new();
+    if *DRY.get_or_init(|| std::env::var("NTV_DRY").is_ok()) {
+        return "dry".into();
+    }
     match catch_unwind(AssertUnwindSafe(f)) {
         Ok(s) => s,
         Err(_) => {
